@@ -38,6 +38,13 @@ def run(chk):
         ops.append("parse %s 5 0 0" % t)
         ops.append("makeowner P %s 0 0" % t); ops.append("normalize 63 0 P %s 0 0" % t); ops.append("normalize 9 1 P %s 0 0" % t)
         ops.append("addbase 0 P %s P %s 0 0" % (t, enc_s("s://u@h:8/a/b?q"))); ops.append("removebase 0 P %s P %s 0 0" % (enc_s("s://u@h:8/a/c/d"), t))
+    # the same discipline when an allocation fails: every position of a sample of calls (the full enumeration is C14's)
+    import c14
+    fcalls = chk.rng.sample(c14.cases(chk, mdl), 120 if q else 1500)
+    ffree = lib.run_lines(mdl, [c + " 0 0" for c in fcalls])
+    for c, o in zip(fcalls, ffree):
+        n = int(o.split(" req=")[1].split()[0]) if " req=" in o else 0
+        for k in range(1, n + 1): ops.append("%s %d %d" % (c, k, k % 2))
     # invalid arguments come back as parse-error on both sides
     corr = []
     for fl, cs in (("A", "1"), ("W", "4"), ("A_asan", "1"), ("W_asan", "4")):
